@@ -263,3 +263,63 @@ Proof.
 Qed.
 Example sqrt_partial_nonvacuous : sqrt_int 2147483647 = 46340 /\ sqrt_uint 4294967295 = 65535.
 Proof. vm_compute. split; reflexivity. Qed.
+
+(* ... and the iteration leaves within the model's 64 iterations: x / c <= sqrt x + 2 makes the distance to the root at least halve (+1) per round,
+   and a strictly decreasing answer finishes the last three steps.  Hence the full statement for every 32-bit value. *)
+Lemma sqrt_loop_step sg x k c : 2 <= x -> in_T sg 32 x = true -> Z.sqrt x <= c <= x / 2 ->
+  sqrt_loop (S k) sg x c = if (c + x / c) / 2 <? c then sqrt_loop k sg x ((c + x / c) / 2) else c.
+Proof.
+  intros Hx HT Hc. assert (S0 : 1 <= Z.sqrt x) by (apply Z.sqrt_le_square; lia).
+  assert (SB : Z.sqrt x < 65536). { apply in_T_bounds in HT. apply Z.sqrt_lt_square; [lia | lia |]. unfold rangeT in HT. destruct sg; change (2 ^ (32 - 1)) with 2147483648 in HT; change (2 ^ 32) with 4294967296 in HT; lia. }
+  change (sqrt_loop (S k) sg x c) with (let next := Z.shiftr (norm sg 32 (c + Z.quot x c)) 1 in if next <? c then sqrt_loop k sg x next else c). cbv zeta.
+  rewrite Z.quot_div_nonneg by lia. pose proof (quot_le_sqrt2 x c Hx ltac:(lia)) as Q.
+  assert (Q0 : 0 <= x / c) by (apply Z.div_pos; lia).
+  assert (R : norm sg 32 (c + x / c) = c + x / c).
+  { apply norm_id; [lia|]. apply in_T_of. apply in_T_bounds in HT. unfold rangeT in *.
+    pose proof (Z.div_mod x 2 ltac:(lia)). pose proof (Z.mod_pos_bound x 2 ltac:(lia)).
+    destruct sg; change (2 ^ (32 - 1)) with 2147483648 in *; change (2 ^ 32) with 4294967296 in *; lia. }
+  rewrite R, Z.shiftr_div_pow2 by lia. reflexivity.
+Qed.
+(* the iteration leaves: close to the root the answer strictly decreases ... *)
+Lemma sqrt_loop_small sg x : 2 <= x -> in_T sg 32 x = true -> forall m c, Z.sqrt x <= c <= x / 2 -> c - Z.sqrt x <= Z.of_nat m ->
+  sqrt_loop (S m) sg x c <> -2.
+Proof.
+  intros Hx HT m. assert (S0 : 1 <= Z.sqrt x) by (apply Z.sqrt_le_square; lia).
+  induction m as [|m IH]; intros c Hc He; rewrite sqrt_loop_step by assumption;
+    pose proof (newton_ge x c ltac:(lia) ltac:(lia)) as G; destruct (Z.ltb_spec ((c + x / c) / 2) c) as [L|L]; try lia.
+  apply IH; lia.
+Qed.
+(* ... and far from it the distance to the root at least halves (x / c <= sqrt x + 2) *)
+Lemma sqrt_loop_big sg x : 2 <= x -> in_T sg 32 x = true -> forall k c, Z.sqrt x <= c <= x / 2 -> c - Z.sqrt x <= 2 ^ Z.of_nat k + 2 ->
+  sqrt_loop (k + 4) sg x c <> -2.
+Proof.
+  intros Hx HT k. assert (S0 : 1 <= Z.sqrt x) by (apply Z.sqrt_le_square; lia).
+  induction k as [|k IH]; intros c Hc He.
+  - change (0 + 4)%nat with (S 3). apply sqrt_loop_small; try assumption; change (2 ^ Z.of_nat 0) with 1 in He; lia.
+  - change (S k + 4)%nat with (S (k + 4)). rewrite sqrt_loop_step by assumption.
+    pose proof (newton_ge x c ltac:(lia) ltac:(lia)) as G. pose proof (quot_le_sqrt2 x c Hx ltac:(lia)) as Q.
+    destruct (Z.ltb_spec ((c + x / c) / 2) c) as [L|L]; [|lia].
+    apply IH; [lia|]. rewrite Nat2Z.inj_succ, Z.pow_succ_r in He by lia.
+    pose proof (Z.div_mod (c + x / c) 2 ltac:(lia)). pose proof (Z.mod_pos_bound (c + x / c) 2 ltac:(lia)). lia.
+Qed.
+Lemma sqrt_loop_total sg x c : 2 <= x -> in_T sg 32 x = true -> Z.sqrt x <= c <= x / 2 -> sqrt_loop 64 sg x c = Z.sqrt x.
+Proof.
+  intros Hx HT Hc. destruct (sqrt_loop_partial sg x Hx HT 64%nat c Hc) as [F|E]; [exfalso | exact E].
+  revert F. change 64%nat with (60 + 4)%nat. apply sqrt_loop_big; try assumption.
+  apply in_T_bounds in HT. unfold rangeT in HT. pose proof (Z.div_mod x 2 ltac:(lia)). pose proof (Z.mod_pos_bound x 2 ltac:(lia)).
+  change (2 ^ Z.of_nat 60) with 1152921504606846976. assert (1 <= Z.sqrt x) by (apply Z.sqrt_le_square; lia).
+  destruct sg; change (2 ^ (32 - 1)) with 2147483648 in *; change (2 ^ 32) with 4294967296 in *; lia.
+Qed.
+(* gtx sqrt(int), every non-negative int; sqrt(uint), every uint: the floor square root *)
+Theorem sqrt_int_correct x : in_T true 32 x = true -> 0 <= x -> sqrt_int x = Z.sqrt x.
+Proof.
+  intros HT Hx. unfold sqrt_int. destruct (Z.leb_spec x 1) as [L|L].
+  - assert (x = 0 \/ x = 1) as [-> | ->] by lia; reflexivity.
+  - apply sqrt_loop_total; [lia | exact HT |]. rewrite Z.shiftr_div_pow2 by lia. change (2 ^ 1) with 2. split; [apply half_ge_sqrt; lia | lia].
+Qed.
+Theorem sqrt_uint_correct x : in_T false 32 x = true -> sqrt_uint x = Z.sqrt x.
+Proof.
+  intros HT. assert (Hx : 0 <= x) by (apply in_T_bounds in HT; unfold rangeT in HT; lia). unfold sqrt_uint. destruct (Z.leb_spec x 1) as [L|L].
+  - assert (x = 0 \/ x = 1) as [-> | ->] by lia; reflexivity.
+  - apply sqrt_loop_total; [lia | exact HT |]. rewrite Z.shiftr_div_pow2 by lia. change (2 ^ 1) with 2. split; [apply half_ge_sqrt; lia | lia].
+Qed.
